@@ -13,6 +13,9 @@ SOURCES = ["src/fiber_scheduler_wsd.c", "src/work_stealing_deque.c"]
 TARGET = 1      # 1: schedule() pushes on store_to (current code); 0: schedule_from
 
 
+L_REST = 3900     # search mode: byte b of the scheduler struct of thread t = 3900 + 1000 t + b (bytes registered otherwise keep their locs)
+
+
 def parse_case(case):
     v = [int(x) for x in case.split()]
     i = 1 + v[0]
@@ -34,6 +37,9 @@ def monitor(case, tr, raw):
     SAVING, or flipped back to WAITING while queued)."""
     if tr is None:
         return "implementation produced no trace: %s" % (raw or "")[:80]
+    # search mode (RT_CATCHALL=1): accesses to bytes of the object(s) that have no location of their own are
+    # scheduling points, not events of the protocol judged here
+    tr = [e for e in tr if e[1] < L_REST or e[2] in (909, 919)]
     _, progs = parse_case(case)
     n = len(progs)
     opidx = [0] * n
@@ -192,11 +198,12 @@ def search(ctx, exe):
         cases = gen_cases(c2, "thorough")[:20000]
     finally:
         c2.cleanup()
-    impl = core.run_sharded([exe], cases)
+    # RT_CATCHALL: every byte of every scheduler struct is a scheduling point (fields the model does not know included)
+    impl = core.run_sharded(["env", "RT_CATCHALL=1", exe], cases)
     for c, line in zip(cases, impl):
         why = core.safe_monitor(monitor, c, core.parse_trace(line) if line is not None else None, line)
         if why:
-            core.report_violation(ctx, "sched", c, why, line)
+            core.report_violation(ctx, "sched+catchall", c, why, line)
             if len(ctx.violations) >= 3:
                 break
 
@@ -207,6 +214,11 @@ def replay(ctx, payload):
     if not exe or not c:
         print("nothing to replay (no concrete case in this file)")
         return 2
+    if str(payload.get("harness", "")).endswith("+catchall"):
+        impl = core.run_sharded(["env", "RT_CATCHALL=1", exe], [c])[0]
+        why = core.safe_monitor(monitor, c, core.parse_trace(impl) if impl is not None else None, impl)
+        print("case:  %s\nimpl (every byte of the object a scheduling point):  %s\nmonitor: %s" % (c, impl, why or "ok"))
+        return 1 if why else 0
     impl = core.run_sharded([exe], [c])[0]
     mod = core.model_run("sched", [c])[0]
     why = monitor(c, core.parse_trace(impl), impl)
